@@ -81,7 +81,10 @@ def compare_lts(acc, ref, got, what, tol=None, walks=2, rnd=None):
                 tr, sched = random_walk(got, b, rnd)
                 tr2 = replay_walk(ref, a, sched, max_steps=400)
                 acc.count("walks")
-                if tr[: len(tr2)] != tr2[: len(tr)]:
+                m = min(len(tr), len(tr2))
+                same = all(x == y or (tol and x[0] == y[0] and len(x) > 1 and tol(x[1], y[1]) and x[2:] == y[2:])
+                           for x, y in zip(tr[:m], tr2[:m]))
+                if not same:
                     out.append((ri, gsig(what, "walk-disagrees-with-product"), {"impl": tr[:20], "spec": tr2[:20]}))
                     break
     return out
